@@ -77,6 +77,8 @@ pub struct Agg {
     pub hashes: BTreeMap<String, u64>,
     /// traces of base histories whose crash points are to be enumerated
     pub enum_bases: Vec<(Job, Value)>,
+    /// runs that exceeded the wall-clock watchdog
+    pub hung: Vec<Job>,
     /// runs of the same history in different hash universes: seed -> (universe, per-operation digests)
     pub universe_groups: BTreeMap<u64, Vec<(u64, Vec<u64>, Job)>>,
 }
@@ -109,6 +111,9 @@ impl Agg {
         let variant = job.params.get("variant").and_then(|v| v.as_str()).unwrap_or("-");
         let uni = job.params.get("universe").and_then(|v| v.as_u64()).unwrap_or(0);
         self.hashes.insert(format!("{:020}:{}:u{}", r.seed, variant, uni), r.log_hash);
+        if r.counters.get("hang").copied().unwrap_or(0) > 0 && self.hung.len() < 3 {
+            self.hung.push(job.clone());
+        }
         if let Verdict::Harness(m) = &r.verdict {
             if self.harness_errors.len() < 20 {
                 self.harness_errors.push(format!("run {} seed {}: {}", r.idx, r.seed, m));
@@ -345,6 +350,31 @@ pub fn run_check(o: &Opts) -> i32 {
         let _ = std::fs::remove_dir_all(&dir);
     }
     let sim_wall = t0.elapsed().as_secs_f64();
+
+    // ---- a run that never returns: if the same seed hangs again, the simulated code spins (a
+    // liveness violation of the property under check), otherwise it was the machine
+    let hung = std::mem::take(&mut agg.hung);
+    for hj in hung {
+        let mut again = None;
+        let _ = pool.run(vec![hj.clone()], def.watchdog_secs, |_, r| again = Some(r));
+        if let Some(r) = again {
+            if r.counters.get("hang").copied().unwrap_or(0) > 0 {
+                let v = Violation {
+                    property: o.prop.clone(),
+                    oracle: "liveness.returns".into(),
+                    class: "hang".into(),
+                    detail: format!("the simulated code did not return within {} s of wall-clock time, twice, for seed {} (a run normally takes well under a second): it spins or blocks outside the simulator's seams", def.watchdog_secs, hj.seed),
+                    facts: json!({"engine": hj.engine}),
+                };
+                let mut rr = RunResult::new(&hj);
+                rr.violations.push(v.clone());
+                rr.trace = Some(json!({"engine": hj.engine, "seed": hj.seed, "params": hj.params, "note": "replay by seed"}));
+                agg.violating_runs += 1;
+                agg.harness_errors.retain(|e| !e.contains(&format!("seed {}", hj.seed)));
+                agg.violations.entry(format!("{}|hang", o.prop)).or_insert((hj.clone(), rr, v));
+            }
+        }
+    }
 
     // ---- cross-process clause: the same history must give the same results in every hash universe
     let groups = std::mem::take(&mut agg.universe_groups);
